@@ -59,8 +59,9 @@ static void opname(int op, char * buf, size_t n) {
 
 static void build_ops(void) {
     int l;
-    int rich = H <= 8;          /* the variants of the text (quotes, apostrophe, positive number, lengths beyond / equal to the text) are explored to the
-                                 * fix-point on heaps of 2..8 bytes; the larger heaps of the thorough tier use the plain texts, which keeps their spaces tractable */
+    int rich = H <= 8 && cap <= 3;      /* the variants of the text (quotes, apostrophe, positive number, lengths beyond / equal to the text) are explored to
+                                         * the fix-point on heaps of 2..8 bytes and queues of 1..3 entries (the quick tier); the larger heaps and the capacity-4
+                                         * queues of the thorough tier use the plain texts, which keeps their state spaces inside memory */
     nops = 0;
     for (l = 0; l <= H; l++) { ops[nops].kind = OP_PUSH; ops[nops].len = l; nops++; }
     if (H >= 3) { ops[nops].kind = OP_PUSHX; ops[nops].len = 3; ops[nops].xlen = 1; nops++; }
@@ -267,7 +268,7 @@ int main(int argc, char ** argv) {
         memset(&m, 0, sizeof m);
         m.key_size = sizeof (hkey_t); m.snap_size = sizeof (snap_t); m.nops = nops;
         m.load = st_load; m.save = st_save; m.apply = apply; m.opname = opname;
-        m.max_states = 40000000ULL;
+        m.max_states = 12000000ULL;          /* about 3.5 GB per explorer process; 16 of them run side by side */
         m.max_depth = (cap >= 4 && H >= 8) ? 9 : 0;      /* the largest spaces: every history of <= 9 operations instead of the fix-point */
         mcx_run(&m);
         states += m.states; transitions += m.transitions; fix &= m.fixpoint; nrun++;
